@@ -1881,7 +1881,50 @@ func (fv *funcVerifier) lockSpecOp(st *State, mu ast.Expr, acquire bool, call *a
 		}
 		fv.lockSnap = st.clone()
 		fv.lockSnaps = append(fv.lockSnaps, fv.lockSnap)
+		if fv.lockSnapBy == nil {
+			fv.lockSnapBy = map[string]*State{}
+		}
+		fv.lockSnapBy[n.Obj().Name()+"."+sel.Sel.Name+"@"+owner.S] = fv.lockSnap
 		return true
+	}
+	// per-section frame: an owned field the modifies clause does not name has, at the release, the
+	// value it had at the acquisition (the exit frame cannot see owned fields: other threads may
+	// change them between sections)
+	if snap := fv.lockSnapBy[n.Obj().Name()+"."+sel.Sel.Name+"@"+owner.S]; snap != nil && fv.spec != nil && fv.spec.Modifies != nil && !fv.spec.ModAll && !fv.wildHavoc {
+		named := map[string]bool{}
+		var walk func(x *SExpr)
+		walk = func(x *SExpr) {
+			if x == nil {
+				return
+			}
+			if x.Op == "field" {
+				named[x.Name] = true
+			}
+			for _, a := range x.Args {
+				walk(a)
+			}
+		}
+		for _, e := range fv.spec.Modifies {
+			walk(e)
+		}
+		for _, fname := range owned {
+			if named[fname] {
+				continue
+			}
+			if _, _, ok := fv.ghostFieldKey(ot, fname); ok {
+				continue
+			}
+			_, f := si.field(fname)
+			if f == nil {
+				continue
+			}
+			cur := fv.fieldLval(st, owner, n, f).load()
+			was := fv.fieldLval(snap, owner, n, f).load()
+			if cur.S == was.S {
+				continue
+			}
+			fv.assert(st, "frame", "section:"+n.Obj().Name()+"."+fname+"@unlock", call.Pos(), smt.Eq(cur, was))
+		}
 	}
 	env := &specEnv{fv: fv, cur: st, old: fv.entry, vars: map[string]sval{}, pkg: n.Obj().Pkg()}
 	for _, inv := range ts.Invs {
